@@ -12,8 +12,8 @@
       parentheses, as many variables as `is` as terms as connectives + 1), hence the rejection of every single-token error
    7. the listed error classes
    8. witnesses *)
-From Coq Require Import ZArith NArith Bool List String Ascii Lia.
-From VF Require Import Num GenNorm GenHedge GenTerm GenOpTable Core ShuntingYard Antecedent Consequent Grammar
+From Coq Require Import ZArith NArith Bool List String Ascii Lia Reals.
+From VF Require Import Num NumR GenNorm GenHedge GenTerm GenOpTable Core ShuntingYard Antecedent Consequent Grammar
   ShuntingYardProofs AntecedentProofs ConsequentProofs RuleText.
 Import ListNotations.
 Set Implicit Arguments.
@@ -1031,6 +1031,92 @@ Section Classes.
   Qed.
 End Classes.
 
+(* ---- Consequent.load: the counters after each state *)
+Section ConsCount.
+  Context {T : Type}.
+  Variable e : engine T.
+  Hypothesis D : names_distinct e.
+
+  Definition cand := cnt is_and.
+  Definition cur_ok (st : @lstate T) : Prop := exists i v hs, ls_cur st = Some (i, v, hs) /\ nth_error (e_outputs e) i = Some v.
+  Definition qinv (q : list string) (st : @lstate T) : Prop :=
+    (ls_state st = Consequent.s_variable /\ cv e q = ci q /\ ci q = ct e q /\ cv e q = cand q) \/
+    (ls_state st = Consequent.s_is /\ cv e q = ci q + 1 /\ ci q = ct e q /\ cv e q = cand q + 1 /\ cur_ok st) \/
+    (ls_state st = 12%N /\ cv e q = ci q /\ ci q = ct e q + 1 /\ cv e q = cand q + 1 /\ cur_ok st) \/
+    (ls_state st = 48%N /\ cv e q = ci q /\ ci q = ct e q /\ cv e q = cand q + 1).
+
+  Lemma not_conn_not_and t : is_conn t = false -> is_and t = false.
+  Proof. unfold is_conn, is_and. now intros H%orb_false_iff. Qed.
+  Lemma cand_snoc q tok : cand (q ++ [tok]) = cand q + b2n (is_and tok).
+  Proof. unfold cand. rewrite cnt_app, cnt_cons, cnt_nil. unfold b2n. lia. Qed.
+
+  Lemma out_var_named tok i v : dict_get (@ov_name T) (e_outputs e) tok = Some (i, v) -> var_named e tok = true.
+  Proof.
+    intros H. apply dict_get_nth in H as [Hn Hk]. unfold var_named. apply orb_true_iff. right. apply existsb_exists.
+    exists v. split; [eapply nth_error_In; eauto|]. now apply String.eqb_eq.
+  Qed.
+  Lemma out_term_named tok i v j tm : nth_error (e_outputs e) i = Some v -> dict_get (@term_name T) (ov_terms v) tok = Some (j, tm) ->
+    term_named e tok = true.
+  Proof.
+    intros Hv H. apply dict_get_nth in H as [Hn Hk]. unfold term_named. apply existsb_exists. exists tm. split; [|now apply String.eqb_eq].
+    unfold all_terms. apply in_or_app. right. apply in_flat_map. exists v. split; eapply nth_error_In; eauto.
+  Qed.
+
+  Lemma qstep q tok st st' : qinv q st -> Consequent.load_step e st tok = Ok st' -> qinv (q ++ [tok]) st'.
+  Proof.
+    destruct st as [s d c]. unfold qinv, cur_ok. cbn [ls_state ls_cur].
+    intros [(-> & K1 & K2 & K3)|[(-> & K1 & K2 & K3 & i & v & hs & -> & Hv)|[(-> & K1 & K2 & K3 & i & v & hs & -> & Hv)|(-> & K1 & K2 & K3)]]];
+      unfold Consequent.load_step, try_variable, try_is, try_hedge, try_term, try_and, token_error; cbn [ls_state ls_cur ls_done]; eval_has; cbn [andb orelse].
+    - destruct (dict_get (@ov_name T) (e_outputs e) tok) as [[i v]|] eqn:G; [destruct (var_truthy v)|]; cbn [orelse]; try discriminate.
+      intros [= <-]. pose proof (out_var_named _ G) as V. destruct (var_not_term_reserved D _ V) as [Ht Hr]. destruct (not_reserved _ Hr) as (H1 & _ & H3 & _).
+      pose proof (counts_snoc e q tok) as C. unfold class5 in C. rewrite V, Ht, H1 in C. destruct C as (C1 & C2 & C3 & _).
+      pose proof (cand_snoc q tok) as C4. rewrite (not_conn_not_and _ H3) in C4. cbn [b2n] in *.
+      right; left. cbn [ls_state ls_cur]. repeat split; try lia. apply dict_get_nth in G as [G _]. exists i, v, []. auto.
+    - destruct (String.eqb_spec "is" tok) as [<-|]; cbn [orelse]; [|discriminate]. intros [= <-].
+      pose proof (counts_snoc e q "is") as C. rewrite (class_is D) in C. destruct C as (C1 & C2 & C3 & _).
+      pose proof (cand_snoc q "is") as C4. cbn [b2n is_and String.eqb Ascii.eqb Bool.eqb] in *.
+      right; right; left. cbn [ls_state ls_cur]. repeat split; try lia. exists i, v, hs. auto.
+    - destruct (hedge_lookup tok) as [h|] eqn:H; cbn [orelse].
+      + intros [= <-]. change (hedge_lookup tok) with (hedge_of_name tok) in H.
+        pose proof (counts_snoc e q tok) as C. rewrite (class_hedge D _ H) in C. destruct C as (C1 & C2 & C3 & _).
+        pose proof (cand_snoc q tok) as C4. apply hedge_of_name_eq in H. assert (A : is_and tok = false) by (subst tok; now destruct h). rewrite A in C4. cbn [b2n] in *.
+        right; right; left. cbn [ls_state ls_cur]. repeat split; try lia. exists i, v, (hs ++ [HG h]). auto.
+      + destruct (dict_get (@term_name T) (ov_terms v) tok) as [[j tm]|] eqn:G; cbn [orelse]; [|discriminate]. intros [= <-].
+        pose proof (@out_term_named tok i v j tm Hv G) as Ht. pose proof (counts_snoc e q tok) as C. rewrite (class_term_named D _ Ht) in C. destruct C as (C1 & C2 & C3 & _).
+        destruct (term_not_reserved D _ Ht) as [Hr _]. destruct (not_reserved _ Hr) as (_ & _ & H3 & _).
+        pose proof (cand_snoc q tok) as C4. rewrite (not_conn_not_and _ H3) in C4. cbn [b2n] in *.
+        right; right; right. cbn [ls_state]. repeat split; lia.
+    - destruct (String.eqb_spec "and" tok) as [<-|]; cbn [orelse]; [|discriminate]. intros [= <-].
+      assert (O : is_conn "and" = true) by reflexivity.
+      pose proof (counts_snoc e q "and") as C. rewrite (class_conn D _ O) in C. destruct C as (C1 & C2 & C3 & _).
+      pose proof (cand_snoc q "and") as C4. cbn [b2n is_and String.eqb Ascii.eqb Bool.eqb] in *.
+      left. cbn [ls_state]. repeat split; lia.
+  Qed.
+
+  Lemma qrun toks : forall q st st', qinv q st -> Consequent.load_run e st toks = Ok st' -> qinv (q ++ toks) st'.
+  Proof.
+    induction toks as [|t toks IH]; intros q st st' K; cbn [Consequent.load_run].
+    - intros [= <-]. now rewrite app_nil_r.
+    - destruct (Consequent.load_step e st t) as [s1|] eqn:E; cbn [bind]; [|discriminate]. intros R.
+      replace (q ++ t :: toks) with ((q ++ [t]) ++ toks) by now rewrite <- app_assoc.
+      eapply IH; [|exact R]. eapply qstep; eauto.
+  Qed.
+
+  (* as many output variables as `is` as terms as `and` + 1 *)
+  Definition cbalanced (c : list string) : Prop := cv e c = ci c /\ ci c = ct e c /\ cv e c = cand c + 1.
+
+  Theorem accepted_consequent_balanced toks cs : Consequent.load e toks = Ok cs -> cbalanced toks.
+  Proof.
+    unfold Consequent.load. destruct toks as [|t toks]; [discriminate|].
+    destruct (Consequent.load_run e load_init (t :: toks)) as [[s d c]|] eqn:R; cbn [bind]; [|discriminate].
+    assert (K0 : qinv [] (@load_init T)) by (left; repeat split; reflexivity).
+    pose proof (@qrun (t :: toks) [] _ _ K0 R) as K. cbn [app] in K. unfold qinv in K. cbn [ls_state] in K.
+    unfold load_final. cbn [ls_state].
+    destruct K as [(-> & K1 & K2 & K3)|[(-> & K1 & K2 & K3 & _)|[(-> & K1 & K2 & K3 & _)|(-> & K1 & K2 & K3)]]]; eval_has; cbn [negb]; try discriminate.
+    intros _. unfold cbalanced. auto.
+  Qed.
+End ConsCount.
+
 (* ================= 7. the listed error classes ================= *)
 Section Reject.
   Context {T : Type}.
@@ -1221,6 +1307,80 @@ Section Reject.
   Theorem unbalanced_parenthesis_missing pre t post c w : t = "(" \/ t = ")" -> balanced e (pre ++ t :: post) -> rule_shape (pre ++ post) c w ->
     rejected (join_sp (rule_toks (pre ++ post) c w)).
   Proof. intros [-> | ->]; apply token_deleted_rejected; unfold counted; auto 10. Qed.
+
+  (* ---- the same on the consequent side *)
+  Lemma shape_consequent_clean a c w : rule_shape a c w -> Forall clean_tok c.
+  Proof.
+    intros S. pose proof (sh_clean S) as C. unfold rule_toks in C. inversion C as [|? ? _ C']; subst. apply Forall_app in C' as [_ C'].
+    inversion C' as [|? ? _ C'']; subst. apply Forall_app in C'' as [C'' _]. exact C''.
+  Qed.
+  Theorem unbalanced_consequent_rejected a c w : rule_shape a c w -> ~ cbalanced e c -> rejected (join_sp (rule_toks a c w)).
+  Proof.
+    intros S NB f6. unfold load_rule_gen, create_gen, parse_text. rewrite (shape_parse S).
+    pose proof (rule_load_outcome e f6 {| ro_text := {| rt_antecedent := join_sp a; rt_consequent := join_sp c; rt_weight := w |}; ro_expression := None; ro_conclusions := [] |}) as H.
+    unfold rule_load in *. cbn [ro_text rt_antecedent rt_consequent] in *.
+    destruct (antecedent_load f6 e (join_sp a)) as [x|y].
+    - unfold consequent_load in *. rewrite (split_join (shape_consequent_clean S)) in *.
+      destruct (Consequent.load e c) as [cs|y] eqn:L.
+      + exfalso. apply NB. eapply accepted_consequent_balanced; eauto.
+      + exists y. split; [reflexivity|]. intros _. eapply consequent_err; eauto.
+    - exists y. split; [reflexivity|]. destruct H as (_ & _ & [->|(_ & -> & _)]); [auto|discriminate].
+  Qed.
+
+  Definition cweight (t : string) : nat * nat * nat * nat := (b2n (var_named e t), b2n (is_is t), b2n (term_named e t), b2n (is_and t)).
+  Lemma cbalanced_delete pre t post : cbalanced e (pre ++ t :: post) -> cbalanced e (pre ++ post) ->
+    let '(v, i, tm, o) := cweight t in v = i /\ i = tm /\ v = o.
+  Proof.
+    unfold cbalanced, cweight, cv, ci, ct, cand. rewrite !cnt_app, !cnt_cons. unfold b2n. intros (A1 & A2 & A3) (B1 & B2 & B3). repeat split; lia.
+  Qed.
+  Lemma cbalanced_substitute pre t u post : cbalanced e (pre ++ t :: post) -> cbalanced e (pre ++ u :: post) ->
+    let '(v, i, tm, o) := cweight t in let '(v', i', tm', o') := cweight u in v + i' = i + v' /\ i + tm' = tm + i' /\ v + o' = o + v'.
+  Proof.
+    unfold cbalanced, cweight, cv, ci, ct, cand. rewrite !cnt_app, !cnt_cons. unfold b2n. intros (A1 & A2 & A3) (B1 & B2 & B3). repeat split; lia.
+  Qed.
+  Lemma weight4_cweight t v i tm o l r : weight4 t = (v, i, tm, o, l, r) -> o = 0 -> is_any t = false -> cweight t = (v, i, tm, 0).
+  Proof.
+    unfold weight4, cweight. intros [= <- <- <- <- _ _] Ho Ha. rewrite Ha. cbn [b2n]. rewrite Nat.add_0_r.
+    destruct (is_conn t) eqn:C; [discriminate|]. now rewrite (not_conn_not_and _ C).
+  Qed.
+  (* a token that counts in a consequent: `is`, `and`, a variable name, a term name *)
+  Definition ccounted (t : string) : Prop := t = "is" \/ t = "and" \/ var_named e t = true \/ term_named e t = true.
+  Lemma ccounted_weight t : ccounted t -> exists v i tm o, cweight t = (v, i, tm, o) /\ ~ (v = i /\ i = tm /\ v = o).
+  Proof.
+    intros [->|[->|[H|H]]].
+    - exists 0, 1, 0, 0. split; [|lia]. apply (weight4_cweight weight_is); reflexivity.
+    - exists 0, 0, 0, 1. split; [|lia]. unfold cweight. assert (R : reserved "and" = true) by reflexivity. destruct (reserved_not_name D _ R) as [-> ->]. reflexivity.
+    - exists 1, 0, 0, 0. split; [|lia]. apply (weight4_cweight (weight_var _ H)); [reflexivity|].
+      destruct (var_not_term_reserved D _ H) as [_ Hr]. now destruct (not_reserved _ Hr) as (_ & ? & _).
+    - exists 0, 0, 1, 0. split; [|lia]. apply (weight4_cweight (weight_term _ H)); [reflexivity|].
+      destruct (term_not_reserved D _ H) as [Hr _]. now destruct (not_reserved _ Hr) as (_ & ? & _).
+  Qed.
+  Theorem consequent_token_deleted_rejected a pre t post w : ccounted t -> cbalanced e (pre ++ t :: post) ->
+    rule_shape a (pre ++ post) w -> rejected (join_sp (rule_toks a (pre ++ post) w)).
+  Proof.
+    intros Ct B S. apply unbalanced_consequent_rejected; [exact S|]. intros B'. pose proof (cbalanced_delete _ _ _ B B') as H.
+    destruct (ccounted_weight Ct) as (v & i & tm & o & E & N). rewrite E in H. contradiction.
+  Qed.
+  Theorem consequent_token_inserted_rejected a pre t post w : ccounted t -> cbalanced e (pre ++ post) ->
+    rule_shape a (pre ++ t :: post) w -> rejected (join_sp (rule_toks a (pre ++ t :: post) w)).
+  Proof.
+    intros Ct B S. apply unbalanced_consequent_rejected; [exact S|]. intros B'. pose proof (cbalanced_delete _ _ _ B' B) as H.
+    destruct (ccounted_weight Ct) as (v & i & tm & o & E & N). rewrite E in H. contradiction.
+  Qed.
+  Theorem consequent_unknown_name a pre t u post w : var_named e t = true \/ term_named e t = true -> unknown_name u ->
+    cbalanced e (pre ++ t :: post) -> rule_shape a (pre ++ u :: post) w -> rejected (join_sp (rule_toks a (pre ++ u :: post) w)).
+  Proof.
+    intros Ht U B S. apply unbalanced_consequent_rejected; [exact S|]. intros B'. pose proof (cbalanced_substitute _ _ _ _ B B') as H.
+    assert (Eu : cweight u = (0, 0, 0, 0)).
+    { apply (weight4_cweight (weight_unknown U)); [reflexivity|]. destruct U as (_ & _ & Hr). now destruct (not_reserved _ Hr) as (_ & ? & _). }
+    rewrite Eu in H. destruct Ht as [Ht|Ht].
+    - assert (ccounted t) as Ct by (right; right; now left). rewrite (weight4_cweight (weight_var _ Ht) eq_refl) in H.
+      + lia.
+      + destruct (var_not_term_reserved D _ Ht) as [_ Hr]. now destruct (not_reserved _ Hr) as (_ & ? & _).
+    - rewrite (weight4_cweight (weight_term _ Ht) eq_refl) in H.
+      + lia.
+      + destruct (term_not_reserved D _ Ht) as [Hr _]. now destruct (not_reserved _ Hr) as (_ & ? & _).
+  Qed.
   End WithDistinctNames.
 
   (* parentheses alone: no hypothesis on the names *)
@@ -1259,11 +1419,342 @@ Section Reject.
     intros S (cs & L) f6. unfold load_rule_gen, create_gen, parse_text. rewrite (shape_parse S).
     pose proof (rule_load_outcome e f6 {| ro_text := {| rt_antecedent := join_sp a; rt_consequent := join_sp (c ++ [extra]); rt_weight := None |}; ro_expression := None; ro_conclusions := [] |}) as H.
     unfold rule_load in *. cbn [ro_text rt_antecedent rt_consequent] in *.
+    assert (Hc : Forall clean_tok (c ++ [extra])).
+    { pose proof (sh_clean S) as C. unfold rule_toks in C. inversion C as [|? ? _ C']; subst. apply Forall_app in C' as [_ C'].
+      inversion C' as [|? ? _ C'']; subst. apply Forall_app in C'' as [C'' _]. exact C''. }
     destruct (antecedent_load f6 e (join_sp a)) as [x|y].
-    - unfold consequent_load in *. rewrite split_join in *.
-      + rewrite (consequent_trailing _ _ extra L) in *. exists ESyntax. auto.
-      + pose proof (sh_clean S) as C. unfold rule_toks in C. inversion C as [|? ? _ C']; subst. apply Forall_app in C' as [_ C'].
-        inversion C' as [|? ? _ C'']; subst. apply Forall_app in C'' as [C'' _]. exact C''.
+    - unfold consequent_load in *. rewrite (split_join Hc) in *. rewrite (consequent_trailing _ _ extra L) in *. exists ESyntax. auto.
     - exists y. split; [reflexivity|]. destruct H as (_ & _ & [->|(_ & -> & _)]); [auto|discriminate].
   Qed.
 End Reject.
+
+(* ---- every antecedent printed from the grammar (Spec/Grammar.v Part B, names as in C06) is balanced: the rejection
+        theorems above apply to every rule generated from the grammar with one injected error *)
+Section GrammarLink.
+  Context {T : Type}.
+  Variable e : engine T.
+
+  (* Model/Antecedent.v's loader and this file's agree on success (whichever final-state check Antecedent.v models) *)
+  Lemma aload_ok_gen f6 p x : Antecedent.load e p = Ok x -> antecedent_load_postfix f6 e p = Ok x.
+  Proof.
+    unfold Antecedent.load, antecedent_load_postfix. pose proof (@arun_inv T e p _ (ainv_init e)) as H.
+    destruct (Antecedent.load_run e p (Antecedent.s_variable, [])) as [[st stack]|y]; [|discriminate].
+    unfold ainv in H. cbn [fst snd] in H.
+    destruct H as [(-> & ->)|[(-> & v & rest & terms & -> & V & Hne & Hrest)|[(-> & v & hs & rest & terms & -> & V & Hne & Hrest)|(-> & Hne & Hst)]]];
+      unfold antecedent_final; eval_has; cbn [negb andb]; try discriminate.
+    intros H; exact H.
+  Qed.
+
+  Theorem grammar_balanced t ta : Prints 0 t ta -> names_ok e t -> names_distinct e -> balanced e ta.
+  Proof.
+    intros HP Hn D. destruct (names_ok_resolves Hn) as [x Hx]. pose proof (antecedent_load_complete HP Hn Hx) as H.
+    unfold AntecedentProofs.parse_tokens in H. destruct (infix_to_postfix op_table ta) as [p|] eqn:S; [|discriminate].
+    eapply accepted_tokens_balanced; [exact D|exact S|]. apply (aload_ok_gen true). exact H.
+  Qed.
+End GrammarLink.
+
+(* a rule whose antecedent is written according to the grammar (names as in C06) and whose consequent loads is accepted,
+   with the tree the grammar denotes: the rules the rejection theorems start from exist for every grammar tree *)
+Section GrammarAccept.
+  Context {T : Type}.
+  Variable is_float : string -> bool.
+  Variable e : engine T.
+
+  Lemma ante_tok_nonempty w : ante_tok w -> w <> "".
+  Proof. intros [H|[-> | ->]]; try discriminate. destruct w; [discriminate|discriminate]. Qed.
+
+  Theorem grammar_rule_accepted f6 t a c w x cs :
+    rule_shape is_float a c w -> Prints 0 t a -> names_ok e t -> resolve e t = Some x -> Consequent.load e c = Ok cs ->
+    load_rule_gen is_float f6 e (join_sp (rule_toks a c w)) =
+    Ok {| ro_text := {| rt_antecedent := join_sp a; rt_consequent := join_sp c; rt_weight := w |};
+          ro_expression := Some x; ro_conclusions := cs |}.
+  Proof.
+    intros S HP Hn Hx Hc. unfold load_rule_gen, create_gen, parse_text. rewrite (shape_parse S). unfold rule_load. cbn [ro_text rt_antecedent rt_consequent].
+    assert (A : antecedent_load f6 e (join_sp a) = Ok x).
+    { unfold antecedent_load. destruct (String.eqb_spec (join_sp a) "") as [E|_].
+      - exfalso. revert E. apply join_sp_nonempty; [apply S|]. eapply Forall_impl; [|exact (sh_ante S)]. apply ante_tok_nonempty.
+      - unfold infix_to_postfix_text. rewrite (shape_tokens S). pose proof (antecedent_load_complete HP Hn Hx) as H.
+        unfold AntecedentProofs.parse_tokens in H. destruct (infix_to_postfix op_table a) as [p|]; [|discriminate]. now apply aload_ok_gen. }
+    rewrite A. unfold consequent_load. rewrite (split_join (shape_consequent_clean S)), Hc. reflexivity.
+  Qed.
+End GrammarAccept.
+
+(* ================= 8. witnesses ================= *)
+Section Witness.
+  Context {T : Type} {NT : Num T}.
+
+  Definition wt (name : string) : term T := TLinear name [].
+  Definition w_in (name : string) (terms : list (term T)) : input_var T :=
+    {| iv_name := name; iv_enabled := true; iv_min := zero; iv_max := one; iv_lock_range := false; iv_terms := terms; iv_value := zero |}.
+  Definition w_out (name : string) (terms : list (term T)) : output_var T :=
+    {| ov_name := name; ov_enabled := true; ov_min := zero; ov_max := one; ov_lock_range := false; ov_lock_previous := false;
+       ov_default := zero; ov_aggregation := None; ov_defuzzifier := None; ov_terms := terms; ov_value := zero; ov_previous := zero; ov_fuzzy := [] |}.
+  (* inputs a {lo, hi}, b {lo, hi}; outputs x {p}, y {q} *)
+  Definition w_engine : engine T :=
+    {| e_name := "w"; e_inputs := [w_in "a" [wt "lo"; wt "hi"]; w_in "b" [wt "lo"; wt "hi"]];
+       e_outputs := [w_out "x" [wt "p"]; w_out "y" [wt "q"]]; e_blocks := [] |}.
+
+  Definition isf := ascii_float_syntax.
+  Definition w_ante : list string := ["a"; "is"; "lo"; "and"; "("; "b"; "is"; "very"; "hi"; "or"; "a"; "is"; "any"; ")"].
+  Definition w_cons : list string := ["x"; "is"; "p"; "and"; "y"; "is"; "not"; "q"].
+  Definition w_text : string := join_sp (rule_toks w_ante w_cons (Some "0.5")).
+
+  Lemma w_text_eq : w_text = "if a is lo and ( b is very hi or a is any ) then x is p and y is not q with 0.5".
+  Proof. reflexivity. Qed.
+
+  Definition w_expr : expr :=
+    EOp true (EProp (VIn 0) [] (Some 0))
+             (EOp false (EProp (VIn 1) [HG H_Very] (Some 1)) (EProp (VIn 0) [HG H_Any] None)).
+  Definition w_concl : list conclusion :=
+    [{| c_var := 0; c_hedges := []; c_term := 0 |}; {| c_var := 1; c_hedges := [HG H_Not]; c_term := 0 |}].
+
+  (* the valid rule is accepted (by either variant of the code), with this tree *)
+  Lemma w_accepted f6 : load_rule_gen isf f6 w_engine w_text =
+    Ok {| ro_text := {| rt_antecedent := join_sp w_ante; rt_consequent := join_sp w_cons; rt_weight := Some "0.5" |};
+          ro_expression := Some w_expr; ro_conclusions := w_concl |}.
+  Proof. destruct f6; vm_compute; reflexivity. Qed.
+
+  Lemma w_distinct : names_distinct w_engine.
+  Proof. vm_compute. reflexivity. Qed.
+
+  Lemma w_balanced : balanced w_engine w_ante.
+  Proof. vm_compute. repeat split. Qed.
+
+  Ltac solve_forall := repeat (first [apply Forall_nil | apply Forall_cons]); try (vm_compute; tauto); try (vm_compute; intuition congruence).
+
+  (* F6: the antecedent ends in `is` *)
+  Lemma w_F6_as_written : load_as_written isf w_engine "if a is then x is p" = Err EInternal.
+  Proof. vm_compute. reflexivity. Qed.
+  Lemma w_F6_fixed : load_fixed isf w_engine "if a is then x is p" = Err ESyntax.
+  Proof. vm_compute. reflexivity. Qed.
+  Lemma w_F6_hedge_as_written : load_as_written isf w_engine "if a is very then x is p" = Err EInternal.
+  Proof. vm_compute. reflexivity. Qed.
+  (* a failed consequent leaves the antecedent loaded, the rule not loaded *)
+  Lemma w_consequent_failure f6 :
+    let o := state_after_gen isf f6 w_engine "if a is lo then x is" in
+    load_rule_gen isf f6 w_engine "if a is lo then x is" = Err ESyntax /\
+    antecedent_loaded o = true /\ consequent_loaded o = false /\ is_loaded o = false.
+  Proof. destruct f6; vm_compute; auto. Qed.
+
+  (* one injected error of each class in the valid rule: rejected (computed on the model) *)
+  Definition w_mutants : list (string * string) :=
+    [("missing_if", "a is lo and ( b is very hi or a is any ) then x is p and y is not q with 0.5");
+     ("missing_then", "if a is lo and ( b is very hi or a is any ) x is p and y is not q with 0.5");
+     ("missing_is", "if a is lo and ( b very hi or a is any ) then x is p and y is not q with 0.5");
+     ("missing_is (consequent)", "if a is lo and ( b is very hi or a is any ) then x p and y is not q with 0.5");
+     ("missing_operand", "if a is lo and ( b is very hi or ) then x is p and y is not q with 0.5");
+     ("missing_operand (dangling and)", "if a is lo and then x is p and y is not q with 0.5");
+     ("missing_operand (consequent)", "if a is lo then x is p and with 0.5");
+     ("missing_term", "if a is lo and ( b is very or a is any ) then x is p and y is not q with 0.5");
+     ("missing_term (consequent)", "if a is lo then x is p and y is not with 0.5");
+     ("missing_variable", "if is lo and ( b is very hi or a is any ) then x is p and y is not q with 0.5");
+     ("missing_variable (consequent)", "if a is lo then is p and y is not q");
+     ("unknown_variable", "if c is lo and ( b is very hi or a is any ) then x is p and y is not q with 0.5");
+     ("unknown_variable (consequent)", "if a is lo then z is p");
+     ("unknown_term", "if a is mid and ( b is very hi or a is any ) then x is p and y is not q with 0.5");
+     ("unknown_term (consequent: a term of another variable)", "if a is lo then x is q");
+     ("unbalanced_parenthesis", "if a is lo and ( b is very hi or a is any then x is p and y is not q with 0.5");
+     ("unbalanced_parenthesis (extra)", "if a is lo and ( b is very hi or a is any ) ) then x is p and y is not q with 0.5");
+     ("trailing_token", "if a is lo then x is p with 0.5 y");
+     ("trailing_token (no weight)", "if a is lo then x is p y")].
+  Lemma w_mutants_rejected f6 : forallb (fun m => match load_rule_gen isf f6 w_engine (snd m) with Err ESyntax => true | _ => false end) w_mutants = true.
+  Proof. destruct f6; vm_compute; reflexivity. Qed.
+  Lemma w_non_numeric_weight f6 : load_rule_gen isf f6 w_engine "if a is lo then x is p with heavy" = Err EValue.
+  Proof. destruct f6; vm_compute; reflexivity. Qed.
+
+  (* the hypotheses of the rejection theorems are inhabited: `missing_is` applied to the valid rule *)
+  Definition w_ante_no_is : list string := ["a"; "is"; "lo"; "and"; "("; "b"] ++ ["very"; "hi"; "or"; "a"; "is"; "any"; ")"].
+  Lemma w_shape_no_is : rule_shape isf w_ante_no_is w_cons (Some "0.5").
+  Proof.
+    split; try discriminate; try reflexivity; unfold free_of, w_ante_no_is, w_cons, rule_toks; cbn [app weight_tokens].
+    - solve_forall.
+    - solve_forall.
+    - repeat (first [apply Forall_nil | apply Forall_cons]); vm_compute; tauto.
+    - repeat (first [apply Forall_nil | apply Forall_cons]); (split; [discriminate|split; reflexivity]).
+  Qed.
+  Lemma w_missing_is_by_theorem : rejected isf w_engine (join_sp (rule_toks w_ante_no_is w_cons (Some "0.5"))).
+  Proof. exact (missing_is w_distinct ["a"; "is"; "lo"; "and"; "("; "b"] ["very"; "hi"; "or"; "a"; "is"; "any"; ")"] w_balanced w_shape_no_is). Qed.
+
+  (* RuleBlock.load_rules: one good and one bad rule -> RuntimeError, the good one stays loaded *)
+  Lemma w_load_rules f6 :
+    let rules := [fst (create_gen isf f6 w_engine "if a is lo then x is p"); fst (create_gen isf f6 w_engine "if a is lo then z is p")] in
+    let r := load_rules_gen f6 w_engine rules in
+    snd r = Some ERuntime /\ map is_loaded (fst r) = [true; false].
+  Proof. destruct f6; vm_compute; auto. Qed.
+End Witness.
+
+(* ---- the status of "never an internal error" as a function of the switch *)
+Theorem no_internal_error_status (f6 : bool) :
+  if f6 then exists text, @load_rule_gen R isf f6 (@w_engine R NumR) text = Err EInternal
+  else forall (T : Type) (is_float : string -> bool) (e : engine T) text, load_rule_gen is_float f6 e text <> Err EInternal.
+Proof.
+  destruct f6.
+  - exists "if a is then x is p". vm_compute. reflexivity.
+  - intros T is_float e text. apply rule_load_no_internal_error_fixed.
+Qed.
+
+(* ================= 9. FllImporter (Model/Fll.v): every failure is a syntax, value or lookup error ================= *)
+From VF Require Fll.
+Module FllReject.
+Import Fll.
+
+(* r does not fail, or fails with SyntaxError, ValueError or KeyError *)
+Definition ni {A} (r : result A) : Prop := forall x, r = Err x -> x = ESyntax \/ x = EValue \/ x = ELookup.
+Lemma ni_ok {A} (a : A) : ni (Ok a). Proof. intros x; discriminate. Qed.
+Lemma ni_syntax {A} : ni (@Err A ESyntax). Proof. intros x [= <-]; auto. Qed.
+Lemma ni_value {A} : ni (@Err A EValue). Proof. intros x [= <-]; auto. Qed.
+Lemma ni_lookup {A} : ni (@Err A ELookup). Proof. intros x [= <-]; auto. Qed.
+Lemma ni_bind {A B} (r : result A) (f : A -> result B) : ni r -> (forall a, ni (f a)) -> ni (bind r f).
+Proof. unfold ni. destruct r as [a|y]; cbn; [intros _ H; apply H|intros H _ x [= <-]; now apply H]. Qed.
+#[local] Hint Resolve ni_ok ni_syntax ni_value ni_lookup : ni.
+
+(* breaks a goal `ni (…)` along ifs, matches, binds and destructuring lets *)
+Ltac ni_step :=
+  match goal with
+  | |- ni (Ok _) => apply ni_ok
+  | |- ni (Err ESyntax) => apply ni_syntax
+  | |- ni (Err EValue) => apply ni_value
+  | |- ni (Err ELookup) => apply ni_lookup
+  | |- ni (bind _ _) => apply ni_bind; [|intros ?]
+  | |- ni (if ?b then _ else _) => destruct b
+  | |- ni (match ?x with _ => _ end) => destruct x
+  | |- ni (let '(_, _) := ?x in _) => destruct x
+  end.
+Ltac ni_auto := repeat (first [solve [auto with ni] | ni_step]).
+
+(* a value as extract_key_value returns it: stripped, hence empty or starting with a non-blank character *)
+Definition headed (v : string) : Prop := match v with EmptyString => True | String c _ => is_ws c = false end.
+Lemma lstrip_headed v : headed (lstrip v).
+Proof. induction v as [|c v IH]; cbn; [exact I|]. destruct (is_ws c) eqn:E; [exact IH|exact E]. Qed.
+Lemma rstrip_headed v : headed v -> headed (rstrip v).
+Proof. destruct v as [|c v]; cbn; [auto|]. intros H. rewrite H, andb_false_r. exact H. Qed.
+Lemma strip_headed v : headed (strip v).
+Proof. unfold strip. apply rstrip_headed, lstrip_headed. Qed.
+Lemma lstrip_of_headed v : headed v -> lstrip v = v.
+Proof. destruct v as [|c v]; cbn; [reflexivity|]. now intros ->. Qed.
+
+(* value.split(maxsplit=1) of a non-empty stripped value has one or two parts: values[0] exists *)
+Lemma split_max_1 v : headed v -> v <> "" -> (exists a, split_max 1 v = [a]) \/ (exists a b, split_max 1 v = [a; b]).
+Proof.
+  intros H Hne. cbn [split_max]. rewrite (lstrip_of_headed _ H). destruct v as [|c v]; [congruence|].
+  destruct (span_tok (String c v)) as [t r]. cbn [split_max]. destruct (lstrip r); eauto.
+Qed.
+
+Section Import.
+  Variable num : Type.
+  Variable parse : string -> option num.
+  Variables n_nan n_pinf n_ninf n_one n_zero : num.
+
+  Lemma ni_parse_all toks : ni (parse_all parse toks).
+  Proof. induction toks as [|t r IH]; cbn [parse_all]; ni_auto. Qed.
+  Lemma ni_parse_num s : ni (parse_num parse s).
+  Proof. unfold parse_num. ni_auto. Qed.
+  Lemma ni_parse_int s : ni (parse_int s).
+  Proof. unfold parse_int. ni_auto. Qed.
+  Lemma ni_import_bool v : ni (import_bool v).
+  Proof. unfold import_bool. ni_auto. Qed.
+  #[local] Hint Resolve ni_parse_all ni_parse_num ni_parse_int ni_import_bool : ni.
+  Lemma ni_import_range v : ni (import_range parse v).
+  Proof. unfold import_range. ni_auto. Qed.
+  Lemma ni_import_tnorm v : ni (import_tnorm v).
+  Proof. unfold import_tnorm. ni_auto. Qed.
+  Lemma ni_import_snorm v : ni (import_snorm v).
+  Proof. unfold import_snorm. ni_auto. Qed.
+  Lemma ni_construct_defuzzifier n : ni (construct_defuzzifier n).
+  Proof. unfold construct_defuzzifier. ni_auto. Qed.
+  Lemma ni_configure_defuzzifier f p : ni (configure_defuzzifier f p).
+  Proof. unfold configure_defuzzifier. ni_auto. Qed.
+  #[local] Hint Resolve ni_import_range ni_import_tnorm ni_import_snorm ni_construct_defuzzifier ni_configure_defuzzifier : ni.
+  Lemma ni_import_defuzzifier v : headed v -> ni (import_defuzzifier v).
+  Proof.
+    intros H. unfold import_defuzzifier. destruct (String.eqb_spec v "") as [->|Hne]; cbn [orb]; [apply ni_ok|].
+    destruct (String.eqb v "none"); [apply ni_ok|].
+    destruct (@split_max_1 v H Hne) as [(a & ->)|(a & b & ->)]; ni_auto.
+  Qed.
+  Lemma ni_construct_activation n : ni (construct_activation n_zero n).
+  Proof. unfold construct_activation. ni_auto. Qed.
+  Lemma ni_two_tokens p : ni (two_tokens p).
+  Proof. unfold two_tokens. ni_auto. Qed.
+  #[local] Hint Resolve ni_construct_activation ni_two_tokens : ni.
+  Lemma ni_configure_activation a p : ni (configure_activation parse a p).
+  Proof. unfold configure_activation. destruct a; ni_auto. Qed.
+  #[local] Hint Resolve ni_configure_activation : ni.
+  Lemma ni_import_activation v : headed v -> ni (import_activation parse n_zero v).
+  Proof.
+    intros H. unfold import_activation. destruct (String.eqb_spec v "") as [->|Hne]; cbn [orb]; [apply ni_ok|].
+    destruct (String.eqb v "none"); [apply ni_ok|].
+    destruct (@split_max_1 v H Hne) as [(a & ->)|(a & b & ->)]; ni_auto.
+  Qed.
+  Lemma ni_parse_shape_params ar hh p : ni (parse_shape_params parse n_one ar hh p).
+  Proof. unfold parse_shape_params. ni_auto. Qed.
+  Lemma ni_configure_discrete n p : ni (configure_discrete parse n_one n p).
+  Proof. unfold configure_discrete. ni_auto. Qed.
+  #[local] Hint Resolve ni_parse_shape_params ni_configure_discrete : ni.
+  Lemma ni_construct_term cls n ps : ni (construct_term parse n_nan n_one cls n ps).
+  Proof. unfold construct_term. ni_auto. Qed.
+  #[local] Hint Resolve ni_construct_term : ni.
+  Lemma ni_import_term kraw v : ni (import_term parse n_nan n_one kraw v).
+  Proof. unfold import_term. ni_auto. Qed.
+  Lemma ni_rule_fsm toks : forall st a c w, ni (rule_fsm parse toks st a c w).
+  Proof. induction toks as [|t r IH]; intros st a c w; cbn [rule_fsm]; [apply ni_ok|]. destruct st; ni_auto. Qed.
+  #[local] Hint Resolve ni_rule_fsm : ni.
+  Lemma ni_parse_rule text : ni (parse_rule parse n_one text).
+  Proof. unfold parse_rule. ni_auto. Qed.
+  #[local] Hint Resolve ni_parse_rule ni_import_term : ni.
+  Lemma ni_import_rule kraw v : ni (import_rule parse n_one kraw v).
+  Proof. unfold import_rule. ni_auto. Qed.
+  #[local] Hint Resolve ni_import_rule ni_import_defuzzifier ni_import_activation : ni.
+
+  Lemma key_value_headed l kraw key value : key_value l = Ok (kraw, key, value) -> headed value.
+  Proof. unfold key_value. destruct (split_colon (clean_line l)) as [[k v]|]; [|discriminate]. intros [= _ _ <-]. apply strip_headed. Qed.
+  Lemma ni_key_value l : ni (key_value l).
+  Proof. unfold key_value. ni_auto. Qed.
+
+  Lemma ni_fold_block {S} (f : string -> string -> string -> S -> result S) :
+    (forall kraw key value s, headed value -> ni (f kraw key value s)) -> forall lines s, ni (fold_block f lines s).
+  Proof.
+    intros Hf. induction lines as [|line rest IH]; intros s; cbn [fold_block]; [apply ni_ok|].
+    destruct (String.eqb (clean_line line) ""); [apply IH|].
+    destruct (key_value (clean_line line)) as [[[kraw key] value]|x] eqn:K; cbn [bind].
+    - apply ni_bind; [apply Hf; eapply key_value_headed; eauto|intros ?; apply IH].
+    - intros y [= <-]. eapply ni_key_value; eauto.
+  Qed.
+
+  Lemma ni_input_line kraw key value v : ni (input_line parse n_nan n_one kraw key value v).
+  Proof. unfold input_line. destruct v. ni_auto. Qed.
+  Lemma ni_output_line kraw key value v : headed value -> ni (output_line parse n_nan n_one kraw key value v).
+  Proof. intros H. unfold output_line. destruct v. ni_auto. Qed.
+  Lemma ni_block_line kraw key value b : headed value -> ni (block_line parse n_one n_zero kraw key value b).
+  Proof. intros H. unfold block_line. destruct b. ni_auto. Qed.
+  Lemma ni_engine_line kraw key value (e : fll_engine num) : ni (engine_line kraw key value e).
+  Proof. unfold engine_line. destruct e. ni_auto. Qed.
+
+  Lemma ni_process component block e : ni (process parse n_nan n_pinf n_ninf n_one n_zero component block e).
+  Proof.
+    unfold process, import_input, import_output, import_block. destruct e.
+    repeat match goal with |- ni (if ?b then _ else _) => destruct b end.
+    - apply ni_fold_block. intros; apply ni_engine_line.
+    - apply ni_bind; [apply ni_bind; [apply ni_fold_block; intros; apply ni_input_line|intros []; apply ni_ok]|intros ?; apply ni_ok].
+    - apply ni_bind; [apply ni_bind; [apply ni_fold_block; intros; now apply ni_output_line|intros []; apply ni_ok]|intros ?; apply ni_ok].
+    - apply ni_bind; [apply ni_fold_block; intros; now apply ni_block_line|intros ?; apply ni_ok].
+    - apply ni_ok.
+  Qed.
+
+  Lemma ni_engine_loop lines : forall component block e, ni (engine_loop parse n_nan n_pinf n_ninf n_one n_zero lines component block e).
+  Proof.
+    induction lines as [|line rest IH]; intros component block e; cbn [engine_loop].
+    - destruct (String.eqb component ""); [apply ni_ok|apply ni_process].
+    - destruct (String.eqb (clean_line line) ""); [apply IH|].
+      apply ni_bind; [apply ni_key_value|]. intros [[kraw key] value]. destruct (is_header key); [|apply IH].
+      apply ni_bind; [destruct (String.eqb component ""); [apply ni_ok|apply ni_process]|intros ?; apply IH].
+  Qed.
+
+  (* every failure of FllImporter.from_string is a SyntaxError, ValueError or KeyError … *)
+  Theorem fll_import_error_classes lines x : import_ parse n_nan n_pinf n_ninf n_one n_zero lines = Err x ->
+    x = ESyntax \/ x = EValue \/ x = ELookup.
+  Proof. unfold import_. apply ni_engine_loop. Qed.
+  (* … never an internal error *)
+  Corollary fll_import_no_internal_error lines : import_ parse n_nan n_pinf n_ninf n_one n_zero lines <> Err EInternal.
+  Proof. intros H. destruct (fll_import_error_classes _ H) as [E|[E|E]]; discriminate. Qed.
+End Import.
+End FllReject.
